@@ -1100,6 +1100,15 @@ func (ev *Eval) equal(a, b EVal) (string, error) {
 	if len(at) != len(bt) {
 		return "", fmt.Errorf("operands differ in shape (%d vs %d leaves)", len(at), len(bt))
 	}
+	// interface values: Go's == (dynamic-value equality), exactly as the code's comparisons are
+	// translated, so that a contract clause `err == ErrX` matches the code's `err == ErrX`
+	if a.T != nil && b.T != nil && len(at) == 1 {
+		_, ai := a.T.Underlying().(*types.Interface)
+		_, bi := b.T.Underlying().(*types.Interface)
+		if ai && bi {
+			return ev.vc.ifaceEq(at[0], bt[0]), nil
+		}
+	}
 	var cs []string
 	for i := range at {
 		cs = append(cs, eq(at[i], bt[i]))
